@@ -35,7 +35,12 @@ int usleep(useconds_t us) {
 	else { struct timespec ts = {us / 1000000, (us % 1000000) * 1000}; nanosleep(&ts, NULL); }
 	return 0;
 }
-void syslog(int p, const char *f, ...) { (void)p; (void)f; }
+static int drv_log = -1;
+void syslog(int p, const char *f, ...) {
+	if (drv_log < 0) drv_log = getenv("DRV_LOG") != NULL;
+	if (drv_log) { va_list ap; va_start(ap, f); vfprintf(stderr, f, ap); va_end(ap); fputc('\n', stderr); }
+	(void)p;
+}
 void vsyslog(int p, const char *f, va_list ap) { (void)p; (void)f; (void)ap; }
 void openlog(const char *i, int o, int f) { (void)i; (void)o; (void)f; }
 void closelog(void) {}
